@@ -159,6 +159,21 @@ def main(tier, seed):
     if nsync3 < 3:
         rep.failing.append({"what": "interval sync beside a 20 ms merge check: the active file was forced %d times in 600 ms with a 120 ms interval" % nsync3,
                             "scenario": sc3.extra})
+    # the active file is replaced between two ticks and the new one reaches exactly the size the old one had at the last sync
+    # (seed C18-D shape): the new file must be forced within a few intervals all the same
+    v34 = b"v" * 34                                # 17 + 2 + 8 + 34 = 61 bytes per entry
+    sc4 = S.Case("sync-after-rotation", {"mfs": 200, "cache": 256, "conc": 1, "frag": (1, 1), "dead": 10 ** 9, "small": 0, "sync": False},
+                 [("set", b"k1", v34), ("set", b"k2", v34), ("set", b"k3", v34), ("sleep", 400),
+                  ("set", b"k4", v34), ("set", b"k5", v34), ("set", b"k6", v34), ("set", b"k7", v34), ("sleep", 1200)])
+    sc4.extra = "policy=never syncms=100"
+    harness_run(["store"], script(sc4), timeout=60, env={"LD_PRELOAD": T.SHIM, "IOREC_LOG": logp})
+    nsync4 = 0
+    if os.path.exists(logp):
+        nsync4 = sum(1 for l in open(logp) if l.startswith("fsync 1.bitcask.data"))
+        os.remove(logp)
+    if nsync4 < 1:
+        rep.failing.append({"what": "interval sync: after the active file was replaced, the new active file (same size as the old one at its last sync) "
+                                    "was not forced once in 1.2 s with a 100 ms interval", "scenario": sc4.extra, "ops": [S.show_op(o) if o[0] == "set" else str(o) for o in sc4.ops]})
     sc2 = S.Case("sync-none", dict(sc.cfg), list(sc.ops))
     sc2.extra = "policy=never"
     harness_run(["store"], script(sc2), timeout=60, env={"LD_PRELOAD": T.SHIM, "IOREC_LOG": logp})
@@ -167,7 +182,7 @@ def main(tier, seed):
     rep.coverage.update({
         "checker_cmd": "make -C coq Props/C18.vo (coqc 8.16.1) ; bin/check C18",
         "trusted_base": TRUSTED,
-        "evaluations": len(tcases) + len(timing) + 3, "fsyncs_beside_merge_check": nsync3, "trigger_true": ntrue,
+        "evaluations": len(tcases) + len(timing) + 4, "fsyncs_after_rotation": nsync4, "fsyncs_beside_merge_check": nsync3, "trigger_true": ntrue,
         "distinct_nontrivial": len(set((c.pol, c.tf, c.tdead, c.impl[-2] if len(c.impl) >= 2 else "") for c in tcases)),
         "rule": "trigger: states with 1-12 live and 0-12 dead entries (+ tombstones of absent and present keys), 9 fragmentation "
                 "triggers incl. 0.6 and 3/5, 3 dead-bytes triggers, both policies: verif_can_merge() vs the binary64 model; timing: eight "
